@@ -42,7 +42,8 @@ def suite(wt):
             cur = re.sub(r"-[0-9a-f]{16}\)?$", "", m.group(2).strip())
         m = re.match(r"test (.+?) \.\.\. (\w+)", line)
         if m:
-            res[cur + " :: " + m.group(1)] = m.group(2)
+            key = re.sub(r"/tmp/wt/confirm-\d+", "<wt>", cur + " :: " + m.group(1))
+            res[re.sub(r"-[0-9a-f]{16}/", "-<hash>/", key)] = m.group(2)
     return res
 
 
@@ -56,8 +57,8 @@ def demo_target(wt, relpath):
     return pkg, name
 
 
-def run_demo(wt, pkg, name):
-    r = sh(["cargo", "test", "--offline", "-p", pkg, "--test", name], wt)
+def run_demo(wt, pkg, name, features=None):
+    r = sh(["cargo", "test", "--offline", "-p", pkg, "--test", name] + (["--features", features] if features else []), wt)
     m = re.findall(r"test result: (\w+)\. (\d+) passed; (\d+) failed", r.stdout)
     if not m:
         return None, (r.stderr[-400:] or r.stdout[-400:])
@@ -87,11 +88,13 @@ def worker(i, todo, results, baseline):
                 os.makedirs(os.path.dirname(os.path.join(wt, rel)), exist_ok=True)
                 open(os.path.join(wt, rel), "w").write(demo)
                 pkg, name = demo_target(wt, rel)
-                ok0, d0 = run_demo(wt, pkg, name)
+                notes = open(os.path.join(src, "notes.md")).read() if os.path.exists(os.path.join(src, "notes.md")) else ""
+                feats = "encoding_rs" if (pkg == "tendril" and "--features encoding_rs" in (demo + notes)) else None
+                ok0, d0 = run_demo(wt, pkg, name, feats)
                 ap = sh(["git", "apply", os.path.join(src, "patch.diff")], wt)
                 if ap.returncode != 0:
                     raise RuntimeError("patch does not apply: " + ap.stderr[:200])
-                ok1, d1 = run_demo(wt, pkg, name)
+                ok1, d1 = run_demo(wt, pkg, name, feats)
                 os.remove(os.path.join(wt, rel))
                 s1 = suite(wt)
                 same = s1 == baseline["res"]
@@ -110,7 +113,8 @@ def worker(i, todo, results, baseline):
                                "needs_to_manifest": "see notes.md (written by the sub-agent)", "demo": "// copy to: " + rel,
                                "confirmed_by_me": {"how": "tools/confirmseed.py in a scratch worktree: demo without patch, demo with patch, whole suite with patch compared per test with the unpatched result set",
                                                    "demo_passes_without_patch": True, "demo_fails_with_patch": True, "suite_same_pass_set_with_patch": True},
-                               "applies_to_repo_head_after_fix_commits": True}, open(os.path.join(dst, "meta.json"), "w"), indent=1)
+                               "applies_to_repo_head_after_fix_commits": True,
+                               **({"tier": "thorough", "features": "tendril/" + feats} if feats else {})}, open(os.path.join(dst, "meta.json"), "w"), indent=1)
             except Exception as e:  # noqa
                 results[tag] = {"confirmed": False, "error": str(e)[:300]}
                 print(tag, "ERROR", str(e)[:300], flush=True)
